@@ -16,7 +16,8 @@ ANCHORS = [("lib/debian/_deb822_repro/parsing.py",
              "from_kvpairs", "Deb822NoDuplicateFieldsParagraphElement",
              "Deb822DuplicateFieldsParagraphElement", "Deb822KeyValuePairElement",
              "add_final_newline_if_missing", "_convert_value_lines_to_lines"]),
-           ("lib/debian/_deb822_repro/tokens.py", ["_RE_FIELD_LINE", "_RE_WHITESPACE_LINE"])]
+           ("lib/debian/_deb822_repro/tokens.py", ["_RE_FIELD_LINE", "_RE_WHITESPACE_LINE"]),
+           ("lib/debian/_util.py", ["OrderedSet", "LinkedList", "LinkedListNode"])]
 BUDGET = {"quick": 600, "thorough": 5000}
 RULE = ("documents of 1-3 paragraphs assembled from line blocks (comment lines before fields, single/multi-line "
         "values, comment lines inside values, tab continuation, empty values, odd separators after the colon, "
@@ -208,8 +209,15 @@ def observe_step(f, op):
         apply_op(f, op)
     except Exception as e:
         err = err_kind(e)
-    dump = f.dump()
-    st = {"err": err, "dump": dump, "paras": read_doc(f)}
+    try:
+        dump = f.dump()
+    except Exception as e:      # the document must always be printable: recorded, so that holds judges it
+        dump = "\x00<dump() raised %s after this operation>" % err_kind(e)
+    try:
+        paras = read_doc(f)
+    except Exception:
+        paras = []
+    st = {"err": err, "dump": dump, "paras": paras}
     try:
         g = parse_doc(split_lines(dump))
         st["reparse"] = [[[n, v.get("ok", "<err>")] for n, v in para] for para in read_doc(g)]
@@ -593,11 +601,68 @@ def gen_leaf(rng):
     return {"leaf": k, "s": s}
 
 
+def _spell(rng, n):
+    return rng.choice([n, n.lower(), n.upper(), n.swapcase(), n.capitalize()])
+
+
+def gen_set_del_set(rng):
+    """One field assigned, deleted and assigned again (and again), under different case spellings, on a document
+    where fields carry comments: a deleted field must be gone for good — its comment and its old spelling must not
+    come back when the name is used again."""
+    text, names = gen_doc(rng, dups=False)
+    j = rng.randrange(len(names))
+    pool = names[j] or ["A"]
+    f = rng.choice(pool)
+    ops = []
+    if rng.random() < 0.5:
+        ops.append({"o": "set", "p": j, "k": _spell(rng, f), "v": rng.choice(GOOD_VALUES)})
+    for _ in range(rng.choice([1, 1, 2])):
+        ops.append({"o": "del", "p": j, "k": _spell(rng, f)})
+        r = rng.random()
+        if r < 0.6:
+            ops.append({"o": "set", "p": j, "k": _spell(rng, f), "v": rng.choice(GOOD_VALUES)})
+        elif r < 0.8:
+            ops.append({"o": "simple", "p": j, "k": _spell(rng, f), "v": rng.choice(["s", "a b", "é"]),
+                        "fc": rng.choice(COMMENTS_GOOD) if rng.random() < 0.5 else None})
+            if ops[-1]["fc"] is None:
+                del ops[-1]["fc"]
+        else:
+            ops.append({"o": "raw", "p": j, "k": _spell(rng, f), "v": rng.choice(RAW_GOOD)})
+    if rng.random() < 0.4:
+        ops.append(gen_edit(rng, [list(x) for x in names]))
+    return {"text": text, "ops": ops}
+
+
+def gen_empty_out(rng):
+    """Every field of a paragraph is deleted, one at a time in any order (the last deletion empties it), then the
+    paragraph is used again: dump, a new field, another deletion."""
+    text, names = gen_doc(rng, dups=False)
+    j = rng.randrange(len(names))
+    order = list(names[j])
+    rng.shuffle(order)
+    ops = [{"o": "del", "p": j, "k": _spell(rng, n)} for n in order]
+    r = rng.random()
+    if r < 0.7:
+        ops.append({"o": "set", "p": j, "k": rng.choice(["New", "A", order[0] if order else "B"]), "v": rng.choice(GOOD_VALUES)})
+    if r < 0.35:
+        ops.append({"o": "set", "p": j, "k": "Second", "v": "x"})
+    if 0.6 < r:
+        ops.append({"o": "del", "p": j, "k": "Absent"})
+    return {"text": text, "ops": ops[:8]}
+
+
 def generate(rng, n, tier):
     n_leaf = n // 6
     for _ in range(n_leaf):
         yield gen_leaf(rng)
     for _ in range(n - n_leaf):
+        r0 = rng.random()
+        if r0 < 0.06:
+            yield gen_set_del_set(rng)
+            continue
+        if r0 < 0.11:
+            yield gen_empty_out(rng)
+            continue
         dups = rng.random() < 0.1
         text, names = gen_doc(rng, dups=dups)
         ops = [gen_edit(rng, names) for _ in range(rng.choice([1, 1, 2, 3, 4, 5]))]
